@@ -90,7 +90,7 @@ def rule_handshake_tables(ctx):
             for s in f.blocks[bi]["s"]:
                 if s["k"] == "assign" and s["p"]["l"] in Q.ret_locals(f) and s["r"]["k"] == "agg":
                     rets.append(T.rvalue(s["r"]))
-        keyterms = [x for r in rets for x in subterms(r) if x[0] == "field" and x[2] == "key" and chain(x)[1][-2:] == ["session_id", "key"]]
+        keyterms = [x for r in rets for u in common.value_terms(f, T, r) for x in subterms(u) if x[0] == "field" and x[2] == "key" and chain(x)[1][-2:] == ["session_id", "key"]]
         if net == "consensus" and d == "outbound":
             okk = True
             desc = "returns (); the caller keeps the dialled peer key, which the table proved equal to the verified key"
@@ -269,7 +269,7 @@ def rule_pool_construction(ctx):
         for c in T.calls():
             if c["q"] == POOLW + "::new":
                 sites.append((f, c, T.args_of(c)))
-    ctx.floor(R, "PoolWatch::new sites", len(sites), 4)
+    ctx.floor(R, "PoolWatch::new sites", len(sites), 3)
     for f, c, a in sites:
         net = "consensus" if "::consensus::" in f.qname else "gossip"
         allowed, extra = a[0], a[1]
@@ -278,9 +278,22 @@ def rule_pool_construction(ctx):
             ok = extra == ("const", 0) and any(x[0] == "call" and x[1].endswith("Schedule::keys") for x in subterms(allowed)) and any(x[0] == "call" and x[1].endswith("validator_schedule") for x in subterms(allowed))
             if not ok and extra == ("const", 0):
                 # the committee set may be filled by a loop instead of an iterator chain: derives-from flow
-                flow = Q.LocalFlow(f)
-                la = flow._local_op(c["t"]["args"][0])
-                ok = la is not None and flow.derives_from_call(la, lambda q: q.endswith("Schedule::keys") or q.endswith("Schedule::iter")) and flow.derives_from_call(la, lambda q: q.endswith("validator_schedule"))
+                def from_committee(body, la):
+                    flow = Q.LocalFlow(body)
+                    return la is not None and flow.derives_from_call(la, lambda q: q.endswith("Schedule::keys") or q.endswith("Schedule::iter")) and flow.derives_from_call(la, lambda q: q.endswith("validator_schedule"))
+                ok = from_committee(f, Q.LocalFlow._local_op(c["t"]["args"][0]))
+                if not ok and f.kind == "closure" and f.parent is not None:
+                    # the pool is built by a local closure: follow the captured set into the enclosing body
+                    up = [x[1] for x in subterms(allowed) if x[0] == "upvar"]
+                    par = f.parent
+                    for b in par.blocks:
+                        for st in b["s"]:
+                            if st["k"] == "assign" and st["r"]["k"] == "agg" and st["r"].get("ak") == "closure" and st["r"].get("def") == f.path:
+                                for cap, op in zip(f.captures, st["r"]["ops"]):
+                                    if cap["name"] in up:
+                                        l = Q.LocalFlow._local_op(op)
+                                        lf = Q.LocalFlow(par)
+                                        ok = ok or from_committee(par, lf._root_borrow(l) if l is not None else None)
             exp = "(validator_schedule().keys(), 0)"
         else:
             if extra == ("const", 0):
